@@ -329,6 +329,9 @@ class Interp(Ops):
         return PySet(self.ev_Tuple(node))
 
     def ev_Dict(self, node):
+        if not node.keys and self.opts.get("empty_dict_factory") and not self.in_spec:
+            # contract option: an empty dict literal of the verified function becomes the contract's ghost map
+            return self.opts["empty_dict_factory"](self)
         d = {}
         for k, v in zip(node.keys, node.values):
             kk = self.ev(k)
